@@ -33,6 +33,16 @@ def handleBuiltin (st : St) (b : String) (parts : List (List String)) : String :
 def handle (st : St) (line : String) : St × Option String :=
   let parts := splitBar line
   let tidOf : Option String := match parts with | (_ :: tid :: _) :: _ => some tid | _ => none
+  if line.startsWith "X" then
+    (match parts with
+     | [["XC"], src, arg, out] => (st, some (staticOpCmp st src arg out))
+     | [["XD"], l, r, out] => (st, some (staticOpDeq st l r out))
+     | [["XL"], src, fn, out] => (st, some (staticOpLC st src fn out))
+     | [["XG"], src, out] => (st, some (staticOpGet st src out))
+     | [["XP"], src, out] => (st, some (staticOpCopy st src out))
+     | [["XT"], src, dst, out] => (st, some (staticOpCopyTo st src dst out))
+     | [["XR"], src, out] => (st, some (staticOpReset st src out))
+     | _ => (st, some "skip malformed")) else
   if line.startsWith "D2 " then
     (match parts with | [head, out] => (st, some (stringsOpDeq st head out)) | _ => (st, some "skip malformed")) else
   match tidOf.bind (fun t => st.builtins[t]?), line.startsWith "T " || line.startsWith "V " with
